@@ -107,9 +107,8 @@ def face_connections_arg(fc, nm):
     return {nm(fc["dim"]): table}
 
 
-def build_grid(sc, ds, nm):
-    from xgcm import Grid
-
+def grid_kwargs(sc, nm):
+    """The keyword arguments of Grid(ds, ...) for this scenario (fresh mapping objects)."""
     g = sc["grid"]
     kw = {}
     if g.get("coords") is not None:
@@ -138,7 +137,13 @@ def build_grid(sc, ds, nm):
         if g.get("metrics_order"):
             items = [items[i] for i in g["metrics_order"] if i < len(items)] + [x for j, x in enumerate(items) if j not in g["metrics_order"]]
         kw["metrics"] = {tuple(nm(a) for a in axes): [nm(v) for v in vs] for axes, vs in items}
-    return Grid(ds, **kw)
+    return kw
+
+
+def build_grid(sc, ds, nm):
+    from xgcm import Grid
+
+    return Grid(ds, **grid_kwargs(sc, nm))
 
 
 def build_array(spec, nm):
@@ -188,8 +193,12 @@ class Env:
         self.grid = None
         self.arrays = {k: build_array(v, self.nm) for k, v in sc.get("arrays", {}).items()}
         self.objects = {}  # shared dict arguments (C18), built lazily per key
+        self.grid_kw = None
         if sc.get("grid") is not None:
-            self.grid = build_grid(sc, self.ds, self.nm)
+            from xgcm import Grid
+
+            self.grid_kw = grid_kwargs(sc, self.nm)  # kept: the constructor's argument objects (C18 snapshots them)
+            self.grid = Grid(self.ds, **self.grid_kw)
 
     # -- argument materialisation
     def data(self, ref):
@@ -231,6 +240,15 @@ class Env:
             kw["keep_coords"] = call["keep_coords"]
         return kw
 
+    def prepare(self, i, call):
+        """Materialise the shared argument objects of a call without executing it (so that a
+        snapshot taken before the call already contains them)."""
+        if call["fn"] in ("diff", "interp", "min", "max", "cumsum", "derivative", "cumint", "pad"):
+            da = self.data(call["da"])
+            if isinstance(da, dict):
+                self.shared((call.get("share", i), "vec"), lambda: da)
+            self.call_kwargs(i, call)
+
     # -- execution
     def run_call(self, i, call):
         fn = call["fn"]
@@ -251,6 +269,8 @@ class Env:
             from xgcm.padding import pad
 
             da = self.data(call["da"])
+            if isinstance(da, dict):
+                da = self.shared((call.get("share", i), "vec"), lambda: da)
             kw = self.call_kwargs(i, call)
             return pad(da, g, boundary_width={nm(a): tuple(w) for a, w in call["widths"].items()}, **kw)
         if fn == "ufunc":
@@ -280,7 +300,9 @@ class Env:
                     "coords": {self.nm.back(a): {p: self.nm.back(d) for p, d in ax.coords.items()} for a, ax in g.axes.items()}}
         if fn == "grid":
             # (re)construct a Grid from the scenario's grid description (C18: constructor arguments)
-            return {"axes": sorted(self.nm.back(a) for a in build_grid(self.sc, self.ds, nm).axes)}
+            from xgcm import Grid
+
+            return {"axes": sorted(self.nm.back(a) for a in Grid(self.ds, **self.grid_kw).axes)}
         if fn == "transform":
             import xarray as xr
 
